@@ -1,0 +1,7 @@
+//go:build !verif
+
+package vm
+
+import "github.com/go-python/gpython/py"
+
+func verifInstr(frame *py.Frame, opcode OpCode, arg int32) {}
